@@ -99,3 +99,33 @@ R.contract(
     props=["C02", "C01"],
     note="the returned GengyList wraps `li` (stated over the function's own list: its length is within [min, max], validate accepts it, every element came from rec(element type))",
 )
+# the variant without list-level mutation / crossover: same generator contract, own validate
+R.cls("ListSizeBetweenWithoutListOperations", bases=["MetaHandlerGenerator"], fields={"min": "int", "max": "int"}, file=LSTS)
+R.contract(
+    "ListSizeBetweenWithoutListOperations.validate",
+    file=LSTS,
+    params=dict(self="ListSizeBetweenWithoutListOperations", v="list[~Val]"),
+    returns="bool",
+    ensures={"is_documented_predicate": "result == (self.min <= len(v) and len(v) <= self.max)"},
+    allocates=False,
+    props=["C02"],
+)
+R.contract(
+    "ListSizeBetweenWithoutListOperations.generate",
+    file=LSTS,
+    params=dict(self="ListSizeBetweenWithoutListOperations", random="RandomSource", grammar="any", base_type="~Type", rec="RecFn", dependent_values="any"),
+    returns="~Val",
+    requires={"ordered": "0 <= self.min and self.min <= self.max", "list_type": "is_generic_list(base_type) and len(get_generic_parameters(base_type)) >= 1"},
+    proves={
+        "length_within_the_documented_bounds": "self.min <= len(li) and len(li) <= self.max",
+        "accepted_by_own_validate": "self.validate(li)",
+        "elements_of_the_element_type": "forall(0, len(li), lambda k: welltyped(li[k], get_generic_parameter(base_type)))",
+    },
+    raises={"SynthesisException": "handlers_may_fail()", "GeneticEngineError": "handlers_may_fail()"},
+    loops={0: Loop(invariants={"so_far": "len(li) == _k and forall(0, _k, lambda k: welltyped(li[k], inner_type))"},
+                   modifies=["li[]", "class:RandomSource", "class:SynthesisDecider"])},
+    locals={"li": "list[~Val]"},
+    modifies=["class:RandomSource", "class:SynthesisDecider"],
+    props=["C02", "C01"],
+    note="the returned GengyList wraps `li` (stated over the function's own list: its length is within [min, max], validate accepts it, every element came from rec(element type))",
+)
